@@ -220,15 +220,21 @@ pub fn run_flow(flow: &Flow) -> FlowOutcome {
                 () => {{
                     let mut quiet = 0;
                     let mut rounds = 0;
-                    while quiet < 3 {
+                    while quiet < 4 {
                         for _ in 0..40 {
                             tokio::task::yield_now().await;
                         }
+                        // the router thread has looked at its channel twice since and found
+                        // nothing to do (however long that takes on a loaded machine: a wait
+                        // that runs into its limit is not a quiet round)
                         let g0 = idle2.load(Ordering::SeqCst);
-                        let mut spins = 0;
-                        while idle2.load(Ordering::SeqCst) < g0 + 2 && spins < 40_000 {
+                        let mut spins = 0u64;
+                        while idle2.load(Ordering::SeqCst) < g0 + 2 {
                             std::thread::sleep(Duration::from_micros(25));
                             spins += 1;
+                            if spins > 2_400_000 {
+                                crate::vcore::machinery_error("E7: the router thread did not come to rest within a minute");
+                            }
                         }
                         if pump(&mut conns, &mut trace) {
                             quiet = 0;
